@@ -258,6 +258,46 @@ def _check_before_write(ctx, mod):
            len(listing) == 1 and '.list(' in list(listing)[0],
            "the reservation being replaced ('<allocation>/<cell>') is "
            'excluded in both accountings', construct='excluded id')
+    # the reservations accounted are those of the request's own cell AND
+    # partition: the listing query is the display {'cell': <cell>,
+    # 'partition': <partition of the request>} - not a query assembled
+    # conditionally, not one with a key left out
+    lists = [c for c in K.calls(cap.node)
+             if K.is_meth(c, 'list') and c.args and
+             'admin_cell_alloc' in N.txt(c.func)]
+    pcell = cap.params()[0]
+    prq = cap.params()[2]
+    okq = len(lists) == 1
+    shown = None
+    if okq:
+        query = lists[0].args[0]
+        held = K.func_env(cap).get(query.id) if isinstance(
+            query, ast.Name) else query
+        shown = N.txt(held) if held is not None else N.txt(query)
+        okq = isinstance(held, ast.Dict) and sorted(
+            getattr(k, 'value', None) for k in held.keys) == [
+                'cell', 'partition']
+        if okq:
+            vals = dict((k.value, K.rtxt(cap, v))
+                        for k, v in zip(held.keys, held.values))
+            okq = vals['cell'] == pcell and \
+                vals['partition'] == "%s['partition']" % prq
+    ctx.ob('C19.3', cap, lists[0] if lists else None, okq,
+           "the accounting lists the reservations of the request's cell "
+           'and partition, unconditionally: %s' % shown,
+           construct='listing query')
+    # ... and every request goes through both accountings: no exit between
+    # the listing and the per-trait check
+    cgraph = ctx.cfg(cap)
+    tsites = [n for n in cgraph.nodes if any(
+        isinstance(c.func, ast.Name) and c.func.id == '_calc_free_traits'
+        for c in C.node_calls(n))]
+    skip = K.find_path(cgraph.entry, [cgraph.exit],
+                       cut_node=lambda n: n in tsites, follow_exc=False)
+    ctx.ob('C19.3', cap, None, bool(tsites) and skip is None,
+           'every accepted request passed the per-trait accounting (no '
+           'return before it)', path=K.describe(skip) if skip else None,
+           construct='per-trait accounting always reached')
     for fname in ('_calc_free', '_calc_free_traits'):
         func = mod.functions[fname]
         nz = N.Normaliser()
